@@ -20,7 +20,9 @@ Oracle (independent of the Lean model):
   suffix      a consumer attached later sees a contiguous suffix of the same sequence;
   capacity    re-running with the receiver limit set to a schedule-determined bound of the backlog (samples delivered
               on a stream minus outputs emitted so far) gives the same outputs.
-Regime `ThreePhaseDifferentStart` (input-only): the three per-phase engines have different first common timestamps.
+No known-finding regime: the 3-phase engine is expected to hold in full (fixes/C06-3phase-resync.patch); on a tree
+without the patch the witness corpus/C06/three_phase_different_start.json fails (per-phase engines with different
+first common timestamps are zipped without comparing timestamps).
 """
 from __future__ import annotations
 
@@ -36,7 +38,6 @@ RULE = ("1-4 gap-free streams per engine with first ticks differing by 0-3, valu
         "receiver limit = default or exactly the largest backlog; single-phase and 3-phase engines; non-trivial = "
         ">=2 streams with different first ticks or lag >= 2 between streams at some point; distinct by canonical JSON hash")
 
-REGIME = "ThreePhaseDifferentStart"
 
 
 # ------------------------------------------------------------------------------------------ real code
@@ -224,19 +225,18 @@ def phase_starts(case: dict) -> list[int | None]:
     return res
 
 
-def regime_3phase(case: dict) -> str | None:
+def different_start(case: dict) -> bool:
     s = phase_starts(case)
-    return REGIME if (None not in s and len(set(s)) > 1) else None
+    return None not in s and len(set(s)) > 1
 
 
 def oracle_3phase(ctx: Ctx, case: dict, obs: dict) -> None:
     st = case["stepus"]
     tab = stream_tables(case["events"], 2)
     outs = obs["out_us"]
-    reg = regime_3phase(case)
 
     def viol(clause: str, detail: str) -> None:
-        ctx.violation(clause, case, {"detail": detail, "out_us": outs, "phase_starts": phase_starts(case)}, regime=reg)
+        ctx.violation(clause, case, {"detail": detail, "out_us": outs, "phase_starts": phase_starts(case)}, regime=None)
 
     starts = phase_starts(case)
     attached = any(ev[0] == "attach" for ev in case["events"])
@@ -265,7 +265,7 @@ def oracle_3phase(ctx: Ctx, case: dict, obs: dict) -> None:
                                   f"phase-{p + 1} samples stamped {tk} = {exp}")
                 break
     exp_n = max(0, t_last - t_first + 1)
-    if len(outs) != exp_n and reg is None:
+    if len(outs) != exp_n:
         viol("complete", f"{len(outs)} outputs, expected ticks {t_first}..{t_last} = {exp_n}")
 
 
@@ -405,8 +405,7 @@ def tags_of(case: dict) -> tuple[list[str], bool]:
                 lag = max(lag, max(cnt) - min(cnt))
         tags.append("lag:" + ("0-1" if lag <= 1 else "2-3" if lag <= 3 else ">=4"))
         return tags, case["n"] >= 2 and (len(firsts) > 1 or lag >= 2)
-    reg = regime_3phase(case)
-    tags = ["3phase", "3phase:" + ("different-start" if reg else "same-start")]
+    tags = ["3phase", "3phase:" + ("different-start" if different_start(case) else "same-start")]
     return tags, True
 
 
